@@ -24,6 +24,8 @@ def run(chk):
 
     r09c(chk, 'R04.e')
     r04f(chk)
+    r04g(chk)
+    r04h(chk, thorough=chk.tier == 'thorough')
 
 
 def _skip_calls(fn):
@@ -291,3 +293,285 @@ def r04f(chk, rid='R04.f'):
     ok = handed is not None and (rebound is None or handed < rebound)
     chk.ob(rid, MEDIA, 'CSSMediaRule._setCssText', f'the EOF token `{var}` is appended to the contained tokens, unconditionally and before `{var}` is re-bound', ok,
            'the contained rules do not see the end of input (or only a synthetic "}"): a rule nested two or more blocks deep is cut short and dropped with its complete declarations')
+
+
+# ---------------------------------------------------------------------------
+# the @media block by evaluation
+
+RULE = 'cssutils/css/cssrule.py'
+MEDIA_CONTENT = {  # statement token -> (class of the rule the block creates for it | None = refused, token value)
+    'IDENT': ('CSSStyleRule', 'a'), 'PAGE_SYM': ('CSSPageRule', '@page'), 'MEDIA_SYM': ('CSSMediaRule', '@media'), 'ATKEYWORD': ('CSSUnknownRule', '@foo'),
+    'COMMENT': ('CSSComment', '/**/'),
+    'CHARSET_SYM': (None, '@charset '), 'IMPORT_SYM': (None, '@import'), 'NAMESPACE_SYM': (None, '@namespace'), 'FONT_FACE_SYM': (None, '@font-face'),
+}
+
+
+def eval_media_block(chk, statements, illformed=()):
+    """Evaluate CSSMediaRule._setCssText on its syntax tree for a block whose content is the given
+    statement tokens. Rule classes are models that bind their arguments through the real constructor
+    signatures and CSSRule.__init__ (evaluated); a created rule is ill-formed when its index is in
+    `illformed`. Returns (final state of the rule, created rules, probes) - a probe records, at the
+    moment a nested rule is handed its text, which style sheet that rule and a rule inside it see."""
+    from sa.absint import Evaluator, Obj, Raised, Record
+
+    from .effects import Effects
+
+    eff = Effects.get(chk.repo)
+    m = chk.repo.mod(MEDIA)
+    rm = chk.repo.mod(RULE)
+    fn = m.get('CSSMediaRule._setCssText')
+    base_init = rm.get('CSSRule.__init__')
+    getter = rm.get('CSSRule._getParentStyleSheet')
+    SHEET_OBJ = Record(namespaces={'p': 'u'}, _id='SHEET')
+    created = []
+    probes = []
+    log = Record(error=lambda *a, **k: None, warn=lambda *a, **k: None, info=lambda *a, **k: None, debug=lambda *a, **k: None)
+
+    def signature(kind):
+        for ci in eff.classes.get(kind, []):
+            if ci.rel.startswith('cssutils/css/'):
+                init = eff.mro_lookup(ci, '__init__')
+                if init is not None:
+                    return [a.arg for a in init.args.args][1:]
+        raise AnalysisError(f'{kind}: constructor not found')
+
+    def sees(rule):
+        got = Evaluator(getter, module=rm, cls='CSSRule').run(self=rule)
+        return got
+
+    class RuleModel(Obj):
+        kind = None
+
+        def __init__(self, *a, **k):
+            params = signature(self.kind)
+            if len(a) > len(params) or any(x not in params for x in k):
+                raise AnalysisError(f'{self.kind}{(a, k)} does not fit its constructor {params}')
+            bound = dict(zip(params, a))
+            bound.update(k)
+            Obj.__init__(self, kind=self.kind, bound=bound, index=len(created), text=None, _setSeq=lambda s: None, _tempSeq=lambda: [])
+            res = Evaluator(base_init, intrinsics={'super': lambda *x: Record(__init__=lambda *y, **z: None)}, module=rm, cls='CSSRule').run(
+                self=self, **{p: bound[p] for p in ('parentRule', 'parentStyleSheet') if p in bound})
+            if isinstance(res, Raised):
+                raise AnalysisError(f'CSSRule.__init__: {res!r}')
+            created.append(self)
+            for p, v in bound.items():
+                if 'text' in p.lower() and v is not None:
+                    self._probe(v)
+
+        def _probe(self, v):
+            object.__setattr__(self, 'text', v)
+            inner = Obj(_parentRule=self, _parentStyleSheet=None, _parent=self)
+            probes.append((self, sees(self), sees(inner)))
+
+        @property
+        def parentRule(self):
+            return self._parentRule
+
+        @property
+        def parentStyleSheet(self):
+            return sees(self)
+
+        @property
+        def wellformed(self):
+            return self.index not in illformed
+
+        @property
+        def cssText(self):
+            return self.text
+
+        @cssText.setter
+        def cssText(self, v):
+            self._probe(v)
+
+    classes = {k: type(k, (RuleModel,), {'kind': k}) for k in ('CSSStyleRule', 'CSSPageRule', 'CSSMediaRule', 'CSSUnknownRule', 'CSSComment', 'CSSFontFaceRule', 'CSSImportRule')}
+
+    class Me(Obj):
+        @property
+        def cssRules(self):
+            return self._cssRules
+
+        @cssRules.setter
+        def cssRules(self, v):
+            object.__setattr__(self, '_cssRules', v)
+
+        @property
+        def media(self):
+            return self._media
+
+        @media.setter
+        def media(self, v):
+            object.__setattr__(self, '_media', v)
+
+    OLD_RULES, OLD_MEDIA = ['old'], Record(_id='OLDMEDIA')
+    me = Me(_cssRules=OLD_RULES, _media=OLD_MEDIA, _parentStyleSheet=SHEET_OBJ, _parentRule=None, parentStyleSheet=SHEET_OBJ, parentRule=None, name=None, _name=None,
+            _splitNamespacesOff=lambda t: (t, {}), _tokenize2=lambda t: iter(()), _type=lambda tok: tok[0] if tok else None,
+            _tokenvalue=lambda tok, normalize=False: (tok[1].lower() if normalize else tok[1]) if tok else None,
+            _stringtokenvalue=lambda tok: tok[1][1:-1], _valuestr=lambda t: 'text', _tempSeq=lambda: [], _setSeq=lambda s: None, _checkReadonly=lambda: None,
+            _prods=Record(MEDIA_SYM='MEDIA_SYM', STRING='STRING'), _log=log)
+    firsts = iter([('MEDIA_SYM', '@media', 1, 1), None])
+    me._nexttoken = lambda tokenizer, default=None: next(firsts)
+
+    def upto(tokenizer=None, starttoken=None, **k):
+        if k.get('mediaqueryendonly'):
+            return ['mq'], ('CHAR', '{', 1, 1)
+        if k.get('mediaendonly'):
+            return ['content'], ('CHAR', '}', 1, 1)
+        return ['tokens']
+
+    me._tokensupto2 = upto
+    me.insertRule = lambda r, index=None: me._cssRules.append(r)
+    ran = []
+
+    def driver(expected, seq, tokenizer, productions, default=None, new=None, **kw_):
+        table = dict(productions)
+        for ttype in statements:
+            cb = table.get(ttype, default)
+            if cb is None:
+                raise AnalysisError(f'CSSMediaRule._setCssText: no callback for {ttype}')
+            expected = cb(expected, seq, (ttype, MEDIA_CONTENT[ttype][1], 1, 1), tokenizer)
+            ran.append(ttype)
+        return True, expected
+
+    css = Record(CSSRuleList=lambda *a: [], **classes)
+    intr = {'super': lambda *a: Record(_setCssText=lambda t: None), 'self._parse': driver, 'CSSMediaRule': classes['CSSMediaRule'],
+            'cssutils': Record(css=css, stylesheets=Record(MediaList=lambda *a, **k: Record(wellformed=True, mediaText=None, _id='NEWMEDIA'))),
+            'self._log.error': log.error, 'self._log.debug': log.debug, 'self._log.warn': log.warn,
+            'xml': Record(dom=Record(InvalidModificationErr='InvalidModificationErr', HierarchyRequestErr='HierarchyRequestErr', SyntaxErr='SyntaxErr'))}
+    res = Evaluator(fn, intrinsics=intr, module=m, cls='CSSMediaRule').run(self=me, cssText='text')
+    if isinstance(res, Raised):
+        raise AnalysisError(f'CSSMediaRule._setCssText: evaluation ends in {res!r}')
+    if ran != list(statements):
+        raise AnalysisError(f'CSSMediaRule._setCssText: the block content was not parsed in the model ({ran})')
+    return me, created, probes, SHEET_OBJ, OLD_RULES
+
+
+def r04g(chk, rid='R04.g'):
+    chk.rule(rid, 'containment inside @media, decided by evaluation: CSSMediaRule._setCssText is evaluated on its syntax tree (rule classes are models bound through the real constructor signatures, the token source and the parse loop are stubs that run the registered callbacks) for a block made of a style rule, one damaged or misplaced statement, and another style rule: whatever the middle statement is - @charset, @import, @namespace or @font-face (not allowed here), or a style rule, @page, nested @media or unknown at-rule that is ill-formed - the rule ends up with exactly the two good rules, in order, and its new media list; nothing is rolled back')
+    chk.assume('R04.g: the media query parses as well-formed; a statement is consumed by one _tokensupto2 slice (R04.a/R04.b); well-formedness of a nested rule is a parameter of the model')
+    n = 0
+    for mid in MEDIA_CONTENT:
+        kind = MEDIA_CONTENT[mid][0]
+        if kind == 'CSSComment':
+            continue
+        stmts = ['IDENT', mid, 'IDENT']
+        me, created, probes, sheet, old = eval_media_block(chk, stmts, illformed=() if kind is None else (1,))
+        kinds = [getattr(r, 'kind', r) for r in me._cssRules]
+        ok = kinds == ['CSSStyleRule', 'CSSStyleRule'] and me._cssRules is not old and getattr(me._media, '_id', None) == 'NEWMEDIA'
+        n += 1
+        what = f'{MEDIA_CONTENT[mid][1].strip()} (not allowed in @media)' if kind is None else f'an ill-formed {kind}'
+        chk.ob(rid, MEDIA, 'CSSMediaRule._setCssText', f'{what} between two style rules: only it is dropped', ok,
+               f'the block ends with rules {kinds}' + (' - the previous content is restored, every rule of the block is lost' if me._cssRules is old else ''))
+    # all good: everything is kept in order
+    me, created, probes, sheet, old = eval_media_block(chk, ['IDENT', 'COMMENT', 'PAGE_SYM', 'MEDIA_SYM', 'ATKEYWORD'])
+    kinds = [getattr(r, 'kind', r) for r in me._cssRules]
+    chk.ob(rid, MEDIA, 'CSSMediaRule._setCssText', 'a block of well-formed statements keeps all of them in order', kinds == ['CSSStyleRule', 'CSSComment', 'CSSPageRule', 'CSSMediaRule', 'CSSUnknownRule'], f'{kinds}')
+    chk.extra['media_block_cases'] = n + 1
+
+
+def r02f(chk, rid='R02.f'):
+    chk.rule(rid, 'rules nested in @media are parsed in the namespace context of the sheet, decided by evaluation: in the evaluation of CSSMediaRule._setCssText (see R04.g) every rule the block creates is bound through its real constructor signature and CSSRule.__init__; at the moment it is handed its text (constructor argument or cssText assignment), CSSRule._getParentStyleSheet - evaluated from the source - gives the style sheet of the enclosing @media both for that rule and for a rule inside it (parentRule = the new rule), so that prefixed selectors at any nesting depth resolve against the sheet\'s @namespace declarations')
+    me, created, probes, sheet, old = eval_media_block(chk, ['IDENT', 'PAGE_SYM', 'MEDIA_SYM', 'ATKEYWORD'])
+    if len(probes) < 4:
+        raise AnalysisError(f'only {len(probes)} nested rules were handed their text in the model (4 expected)')
+    for rule, own, inner in probes:
+        chk.ob(rid, MEDIA, 'CSSMediaRule._setCssText', f'{rule.kind} created in the block sees the style sheet while it parses its text', own is sheet,
+               f'parentStyleSheet is {own!r}: its selectors are parsed without the namespaces of the sheet')
+        if rule.kind in ('CSSMediaRule',):
+            chk.ob(rid, MEDIA, 'CSSMediaRule._setCssText', f'a rule inside the nested {rule.kind} sees the style sheet while it is parsed', inner is sheet,
+                   f'parentStyleSheet of the inner rule is {inner!r}: prefixed selectors in an @media nested in an @media are dropped, unprefixed ones lose the default namespace')
+
+
+_BAL = {}
+
+
+def _balanced_exact(depth, n):
+    key = (depth, n)
+    if key not in _BAL:
+        if n == 0:
+            _BAL[key] = [()]
+        else:
+            cur = []
+            for first in ('x', ';'):
+                cur += [(first,) + rest for rest in _balanced_exact(depth, n - 1)]
+            if depth > 0:
+                for o, c in (('(', ')'), ('[', ']'), ('{', '}'), ('f(', ')')):
+                    for k in range(0, n - 1):
+                        for inner in _balanced_exact(depth - 1, k):
+                            for rest in _balanced_exact(depth, n - 2 - k):
+                                cur.append((o,) + inner + (c,) + rest)
+            _BAL[key] = cur
+    return _BAL[key]
+
+
+def _tok(v):
+    return ('FUNCTION' if v == 'f(' else 'IDENT' if v == 'x' else 'CHAR', v, 1, 1)
+
+
+def r04h(chk, rid='R04.h', thorough=False):
+    chk.rule(rid, 'an unknown at-rule inside a page-margin box is skipped as a unit, decided by evaluation: the consumer that PreDef.unknownrule hands to its production (the nested function that collects the tokens of the rule) is evaluated on every at-rule made of a balanced prelude ended by ";" or followed by a balanced {...} block (all bracket kinds, function tokens, ";" inside brackets, nesting depth 2) followed by the tokens of a declaration: it takes exactly the tokens of the at-rule - the declaration behind it is left for the box')
+    chk.assume('R04.h: CSSUnknownRule is a stub that records the tokens it is given; token streams are (type, value, line, col) tuples as the tokenizer makes them')
+    from sa.absint import Evaluator, Raised, Record
+
+    m = chk.repo.mod('cssutils/prodparser.py')
+    outer = m.get('PreDef.unknownrule')
+    inner = [n for n in ast.walk(outer) if isinstance(n, ast.FunctionDef) and n is not outer]
+    # the consumer is the local function called from the production's toSeq
+    used = {call_name(c) for lam in ast.walk(outer) if isinstance(lam, ast.Lambda) for c in ast.walk(lam) if isinstance(c, ast.Call)}
+    inner = [f for f in inner if f.name in used]
+    if len(inner) != 1:
+        raise AnalysisError(f'PreDef.unknownrule: {len(inner)} token consumers found (1 expected)')
+    fn = inner[0]
+    maxlen = 6 if thorough else 5
+    rest = [_tok('x'), ('CHAR', ':', 1, 1), _tok('x')]
+    cases = 0
+    bad = []
+    for plen in range(0, maxlen):
+        for prelude in _balanced_exact(2, plen):
+            if ';' in _top_level(prelude) or _top_level_block(prelude):
+                continue  # the rule would end inside the prelude
+            ends = [(';',)]
+            for blen in range(0, maxlen - plen):
+                ends += [('{',) + b + ('}',) for b in _balanced_exact(2, blen)]
+            for end in ends:
+                rule = ('@foo',) + prelude + end
+                toks = [('ATKEYWORD', '@foo', 1, 1)] + [_tok(v) for v in prelude + end]
+                got = []
+                stream = iter(toks + rest)
+                res = Evaluator(fn, intrinsics={'cssutils': Record(css=Record(CSSUnknownRule=lambda saved, *a, **k: got.append(list(saved)) or 'RULE'))}, module=m).run(**{fn.args.args[0].arg: stream})
+                cases += 1
+                left = list(stream)
+                if isinstance(res, Raised) or got != [toks] or left != rest:
+                    body = prelude + end[1:-1]
+                    cls = 'nested' if any(v in ('(', '[', '{', 'f(') for v in body) else 'semicolon' if ';' in end[1:-1] else 'flat'
+                    bad.append((cls, ' '.join(rule), 'raises ' + repr(res) if isinstance(res, Raised) else f'takes {len(got[0]) if got else 0} of {len(toks)} tokens, leaves {len(left)} of {len(rest)} behind it'))
+    if cases < 300:
+        raise AnalysisError(f'only {cases} at-rules enumerated')
+    chk.extra['unknown_margin_rules'] = cases
+    for cls, what in (('flat', 'without brackets in the prelude or block and without ";" in the block'), ('semicolon', 'with ";" inside the block'), ('nested', 'with (), [], {} or function tokens in the prelude or block')):
+        b = [(r, w) for c, r, w in bad if c == cls]
+        chk.ob(rid, 'cssutils/prodparser.py', f'PreDef.unknownrule.{fn.name}', f'every balanced unknown at-rule {what} is consumed exactly', not b,
+               '; '.join(f'`{r}`: {w}' for r, w in b[:3]) + f' ({len(b)} of {cases} rules): what follows the at-rule in the margin box (or the rest of the @page rule) is swallowed, or the rule is cut short and its rest is read as declarations')
+
+
+def _top_level(seq):
+    out, d = [], 0
+    for v in seq:
+        if v in ('(', '[', '{', 'f('):
+            d += 1
+        elif v in (')', ']', '}'):
+            d -= 1
+        elif d == 0:
+            out.append(v)
+    return out
+
+
+def _top_level_block(seq):
+    d = 0
+    for v in seq:
+        if v == '{' and d == 0:
+            return True
+        if v in ('(', '[', '{', 'f('):
+            d += 1
+        elif v in (')', ']', '}'):
+            d -= 1
+    return False
